@@ -100,11 +100,11 @@ fn err_kind(e: &zbus::Error) -> (&'static str, u32, i64) {
 type Slots = Rc<RefCell<HashMap<usize, MessageStream>>>;
 
 fn consumer(sh: Sh, conn: Connection, s: usize, rule: Option<String>, cap: Option<usize>, gate: GateRc, slots: Slots,
-            from_slot: bool) -> Pin<Box<dyn Future<Output = J>>> {
+            from_slot: bool, parent: usize) -> Pin<Box<dyn Future<Output = J>>> {
     Box::pin(async move {
         let mut stream = if from_slot {
             let st = slots.borrow_mut().remove(&s).expect("clone slot");
-            emit(&sh, json!({"ev":"Subscribed","stream":s,"result":"clone"}));
+            emit(&sh, json!({"ev":"Subscribed","stream":s,"result":"clone","parent":parent}));
             st
         } else {
             match rule {
@@ -256,7 +256,7 @@ impl Run {
     }
     fn send_in(&mut self, m: zbus::message::Message, kind: &str, cut: Option<usize>) {
         let d = describe(&m);
-        emit(&self.sh, json!({"ev":"PeerSend","kind":kind,"reply_serial":d["reply_serial"],"id":d["id"],"serial":d["serial"]}));
+        emit(&self.sh, json!({"ev":"PeerSend","kind":kind,"reply_serial":d["reply_serial"],"id":d["id"],"serial":d["serial"],"member":d["member"]}));
         let b = msg_bytes(&m);
         match cut {
             Some(k) if k > 0 && k < b.len() => {
@@ -310,13 +310,14 @@ impl Run {
             }
             "sub" => {
                 let s = a(1);
-                let rule = st[2].as_str().map(|x| x.to_string());
+                let member = st[2].as_str().map(|x| x.to_string());
+                let rule = member.as_ref().map(|m| format!("type='signal',member='{m}'"));
                 let cap = st[3].as_u64().map(|x| x as usize);
-                emit(&self.sh, json!({"ev":"SubStart","stream":s,"rule":rule.clone().unwrap_or_default(),"cap":cap.unwrap_or(0)}));
+                emit(&self.sh, json!({"ev":"SubStart","stream":s,"member":member.clone().unwrap_or_default(),"cap":cap.unwrap_or(0)}));
                 let g: GateRc = Rc::new(RefCell::new(Gate::default()));
                 self.gates.insert(s, g.clone());
                 let conn = self.conn.as_ref().unwrap().clone();
-                let t = self.sched.add(&format!("stream{s}"), consumer(self.sh.clone(), conn, s, rule, cap, g, self.slots.clone(), false));
+                let t = self.sched.add(&format!("stream{s}"), consumer(self.sh.clone(), conn, s, rule, cap, g, self.slots.clone(), false, 0));
                 self.stream_task.insert(s, t);
             }
             "clone" => {
@@ -338,7 +339,7 @@ impl Run {
                         let g2: GateRc = Rc::new(RefCell::new(Gate::default()));
                         self.gates.insert(s2, g2.clone());
                         let conn = self.conn.as_ref().unwrap().clone();
-                        let t = self.sched.add(&format!("stream{s2}"), consumer(self.sh.clone(), conn, s2, None, None, g2, self.slots.clone(), true));
+                        let t = self.sched.add(&format!("stream{s2}"), consumer(self.sh.clone(), conn, s2, None, None, g2, self.slots.clone(), true, s));
                         self.stream_task.insert(s2, t);
                         self.sched.poll(t);
                     }
@@ -393,7 +394,14 @@ impl Run {
             }
             "permit" => allow_write(&self.sh, a(1).max(1)),
             "gate" => {
-                self.sh.lock().unwrap().write_gated = st[1].as_bool().unwrap_or(true);
+                let w = {
+                    let mut s = self.sh.lock().unwrap();
+                    s.write_gated = st[1].as_bool().unwrap_or(true);
+                    s.write_waker.take()
+                };
+                if let Some(w) = w {
+                    w.wake();
+                }
             }
             "eof" => {
                 emit(&self.sh, json!({"ev":"Fault","where":"read","kind":"eof"}));
@@ -420,7 +428,10 @@ impl Run {
                 emit(&self.sh, json!({"ev":"Fault","where":"write","kind":"err"}));
                 set_write_fault(&self.sh, Fault::Err);
             }
-            "sleep" => std::thread::sleep(std::time::Duration::from_millis(a(1) as u64)),
+            "sleep" => {
+                std::thread::sleep(std::time::Duration::from_millis(a(1) as u64));
+                emit(&self.sh, json!({"ev":"Slept","ms":a(1)}));
+            }
             "quiesce" => self.quiesce(),
             "dropconn" => {
                 if self.conn.take().is_some() {
@@ -428,6 +439,7 @@ impl Run {
                 }
             }
             "allcredit" => {
+                emit(&self.sh, json!({"ev":"AllCredit"}));
                 for g in self.gates.values() {
                     grant(g, u64::MAX);
                 }
@@ -442,7 +454,7 @@ fn run_scenario(sc: &J) -> Vec<J> {
     let sh = new_shared();
     sh.lock().unwrap().log_io = sc["log_io"].as_bool().unwrap_or(false);
     sh.lock().unwrap().write_gated = sc["write_gated"].as_bool().unwrap_or(false);
-    emit(&sh, json!({"ev":"Reset","scenario":sc["id"],"kind":sc["kind"],"ncallers":sc["ncallers"],"cap":sc["cap"]}));
+    emit(&sh, json!({"ev":"Reset","kind":sc["kind"],"timeout_ms":sc["timeout_ms"].as_u64().unwrap_or(0)}));
     let conn = connect(&sh, sc["timeout_ms"].as_u64().unwrap_or(0), sc["max_queued"].as_u64().map(|x| x as usize));
     let mut run = Run {
         sh: sh.clone(),
